@@ -166,8 +166,8 @@ int main (int argc, char **argv)
 	for (f = 0 ; f < vh_nfmts ; f++) for (c = 1 ; c <= 2 ; c++)
 	{	int format = vh_fmts [f].format ;
 		if (vh_fmts [f].major == SF_FORMAT_SD2 || !vh_accepts (format, c, 8000)) continue ;
-		for (v = 0 ; v < (vh_thorough ? 16 : 6) ; v++)
-		{	static const int vq [] = { 0, 1, 3, 4, 8, 2 } ; int variant = vh_thorough ? v : vq [v] ;
+		for (v = 0 ; v < 16 ; v++)
+		{	int variant = v ;
 			if ((variant & 2) && !(vh_fmts [f].major == SF_FORMAT_WAV || vh_fmts [f].major == SF_FORMAT_AIFF || vh_fmts [f].major == SF_FORMAT_CAF || vh_fmts [f].major == SF_FORMAT_RF64 || vh_fmts [f].major == SF_FORMAT_WAVEX)) continue ;
 			if (!vh_case ("%s ch=%d read routes variant=%d", vh_fname (format), c, variant)) continue ;
 			vh_distinct (vh_fnv (0, &format, 4) ^ ((uint64_t) c << 33) ^ ((uint64_t) variant << 40) ^ vh_rs) ; vh_statf (1, "fmt:%s", vh_fname (format)) ;
